@@ -7,6 +7,7 @@ package main
 import (
 	"time"
 
+	"github.com/ozontech/seq-db/frac/processor"
 	"github.com/ozontech/seq-db/seq"
 	"github.com/ozontech/seq-db/util"
 
@@ -118,5 +119,110 @@ func runGen(w *casefile.Writer, r *rng.R, thorough bool) {
 			qf, qt = qt, qf
 		}
 		add(gc.Case("gen-IsIntersecting", 8, with(gc.U(qf), gc.U(qt)), func() []string { return []string{gc.B(d.IsIntersecting(seq.MID(qf), seq.MID(qt)))} }))
+	}
+	runGen2(w, r, n, add)
+}
+
+// fakeIndex is a plain IDs index over a table of (MID, RID) pairs: the index parameter of getLIDsBorders in the
+// gen-getLIDsBorders class (GenCase.gen_index is its Coq twin).
+type fakeIndex struct{ mids, rids []uint64 }
+
+func (f fakeIndex) at(lid seq.LID) seq.ID {
+	if int(lid) < len(f.mids) {
+		return seq.ID{MID: seq.MID(f.mids[lid]), RID: seq.RID(f.rids[lid])}
+	}
+	return seq.ID{}
+}
+func (f fakeIndex) LessOrEqual(lid seq.LID, id seq.ID) bool { return seq.LessOrEqual(f.at(lid), id) }
+func (f fakeIndex) GetMID(lid seq.LID) seq.MID             { return f.at(lid).MID }
+func (f fakeIndex) GetRID(lid seq.LID) seq.RID             { return f.at(lid).RID }
+func (f fakeIndex) Len() int                               { return len(f.mids) }
+
+// round 2: seq.LessOrEqual, util.BinSearchInRange (predicate = a table of bits, monotone or not, panicking outside
+// it), processor.getLIDsBorders (index = a descending or arbitrary table of IDs incl. the stub at LID 0)
+func runGen2(w *casefile.Writer, r *rng.R, n int, add func(gc.Item)) {
+	u64s := func(xs []uint64) gc.Arg {
+		a := make(gc.Arg, len(xs))
+		for i, x := range xs {
+			a[i] = gc.U(x)
+		}
+		return a
+	}
+	for i := 0; i < n; i++ {
+		a, b := seq.ID{MID: seq.MID(gc.U64(r)), RID: seq.RID(gc.U64(r))}, seq.ID{MID: seq.MID(gc.U64(r)), RID: seq.RID(gc.U64(r))}
+		if r.Bool() {
+			b.MID = a.MID
+		}
+		if r.Chance(1, 4) {
+			b.RID = a.RID
+		}
+		add(gc.Case("gen-LessOrEqual", 9, []gc.Arg{gc.S(gc.U(uint64(a.MID))), gc.S(gc.U(uint64(a.RID))), gc.S(gc.U(uint64(b.MID))), gc.S(gc.U(uint64(b.RID)))},
+			func() []string { return []string{gc.B(seq.LessOrEqual(a, b))} }))
+
+		from := r.Intn(40) - 10
+		if r.Chance(1, 6) {
+			from = int(gc.I64(r) / 4)
+		}
+		nb := r.Intn(12)
+		bits := make([]uint64, nb)
+		th := r.Intn(nb + 1)
+		for j := range bits {
+			if j >= th {
+				bits[j] = 1
+			}
+			if r.Chance(1, 12) { // not monotone
+				bits[j] ^= 1
+			}
+		}
+		to := from + nb - 1
+		switch r.Intn(8) {
+		case 0:
+			to = from - 1 - r.Intn(3) // empty / inverted range
+		case 1:
+			to++ // the predicate panics when the search reaches the last position
+		}
+		add(gc.Case("gen-BinSearchInRange", 10, []gc.Arg{gc.S(gc.I(int64(from))), gc.S(gc.I(int64(to))), u64s(bits)},
+			func() []string {
+				return []string{gc.I(int64(util.BinSearchInRange(from, to, func(i int) bool { return bits[i-from] != 0 })))}
+			}))
+
+		nt := r.Intn(10)
+		mids, rids := make([]uint64, nt), make([]uint64, nt)
+		cur := uint64(1000 + r.Intn(50))
+		if r.Chance(1, 8) {
+			cur = 1<<64 - 1
+		}
+		for j := 0; j < nt; j++ {
+			if j == 0 {
+				mids[j], rids[j] = 1<<64-1, 1<<64-1
+				continue
+			}
+			if step := uint64(r.Intn(4)); step <= cur {
+				cur -= step
+			}
+			mids[j], rids[j] = cur, rng.Pick(r, []uint64{0, 1, 1<<64 - 1, r.U64()})
+		}
+		if r.Chance(1, 8) && nt > 2 { // unsorted table
+			mids[1], mids[nt-1] = mids[nt-1], mids[1]
+		}
+		q := func() uint64 {
+			switch r.Intn(5) {
+			case 0:
+				return gc.U64(r)
+			case 1:
+				return 0
+			}
+			return cur + uint64(r.Intn(60)) - 5
+		}
+		lo, hi := q(), q()
+		if r.Chance(3, 4) && lo > hi {
+			lo, hi = hi, lo
+		}
+		ix := fakeIndex{mids, rids}
+		add(gc.Case("gen-getLIDsBorders", 11, []gc.Arg{gc.S(gc.U(lo)), gc.S(gc.U(hi)), u64s(mids), u64s(rids)},
+			func() []string {
+				a, b := processor.VerifC14LIDsBorders(seq.MID(lo), seq.MID(hi), ix)
+				return []string{gc.U(uint64(a)), gc.U(uint64(b))}
+			}))
 	}
 }
